@@ -15,6 +15,9 @@ package main
 //                                                codec and fed to the real gateway Adapter.Decode on a session in <mode>
 //   recv  <key> <iv> <mode> <setting> <mid> <mseq> <msgno> <ts> <from> <chid> <chtype> <payload>
 //                                                real gateway Adapter.Encode seals a RECV on a session in <mode>; decoded with the real codec, opened by the client API
+//   sopen <key> <iv>                             one gateway session with a cached SessionCrypto, kept for the rest of the case
+//   sgen  <seq> <msgno> <chid> <chtype> <payload>  a genuine sealed SEND through Adapter.Decode on THAT session
+//   srep  <tamper>                               the last genuine packet again (same MsgKey), perturbed, on the same session
 //   neg   <clientPriv> <variant>                 real NegotiateServerSession / DeriveClientSession with real X25519 both sides
 //
 // The generator uses only Go's standard library (crypto/aes, crypto/cipher,
@@ -42,7 +45,7 @@ import (
 )
 
 func init() {
-	Register(&Prop{Gen: genC25, NewRunner: func() Runner { return c25Runner{} }})
+	Register(&Prop{Gen: genC25, NewRunner: func() Runner { return &c25Runner{} }})
 }
 
 // ------------------------------------------------------------------ generator
@@ -177,6 +180,32 @@ func genC25(g *Gen) {
 			}
 		}
 	}
+	// per-session histories: genuine SEND, forged SENDs reusing its MsgKey with each covered field altered, genuine again
+	for h := 0; h < 6+g.N/100; h++ {
+		g.Case()
+		g.Op("sopen", "%s %s", Hex(c25GoodKey(g, "key")), Hex(c25GoodKey(g, "iv")))
+		for round := g.R.Range(1, 3); round > 0; round-- {
+			g.Op("sgen", "%d %s %s %d %s", g.R.Intn(100000), Hex(c25Text(g)), Hex(c25Text(g)), g.R.Intn(256), Hex(g.R.Bytes(c25PayloadLen(g, 200))))
+			if g.R.Chance(30) {
+				g.Op("srep", "none")
+			}
+			for _, fld := range []string{"payload", "msgno", "chid", "seq", "chtype"} {
+				if g.R.Chance(85) {
+					kind := "f"
+					if fld != "seq" && fld != "chtype" {
+						kind = []string{"f", "f", "d", "i", "t"}[g.R.Intn(5)]
+						if kind == "t" && fld != "payload" {
+							kind = "i"
+						}
+					}
+					g.Count("hist:replay-" + fld)
+					g.Op("srep", "%s:%s:%d:%d", kind, fld, g.R.Intn(4096), g.R.Intn(256))
+				}
+			}
+		}
+		g.Op("sgen", "%d %s %s %d %s", g.R.Intn(100000), Hex(c25Text(g)), Hex(c25Text(g)), g.R.Intn(256), Hex(g.R.Bytes(c25PayloadLen(g, 200))))
+	}
+	g.Case()
 	for i := 0; i < g.N; i++ {
 		if i%200 == 199 {
 			g.Case()
@@ -408,9 +437,14 @@ func genC25Send(g *Gen) {
 
 // --------------------------------------------------------------------- runner
 
-type c25Runner struct{}
+// per-case state of the session histories (sopen / sgen / srep)
+type c25Runner struct {
+	sess   session.Session
+	keys   penc.SessionKeys
+	sealed *frame.SendPacket // the last genuine packet as it went on the wire
+}
 
-func (c25Runner) Close() {}
+func (*c25Runner) Close() {}
 
 func c25Err(err error) string {
 	var ce base64.CorruptInputError
@@ -460,7 +494,7 @@ func c25TamperBytes(kind byte, b []byte, idx, arg int) []byte {
 	return out
 }
 
-func (c25Runner) Step(op string) string {
+func (r *c25Runner) Step(op string) string {
 	f := strings.Fields(op)
 	if len(f) == 0 {
 		return "bad-op"
@@ -579,6 +613,8 @@ func (c25Runner) Step(op string) string {
 		return c25Neg(f)
 	case "recv":
 		return c25Recv(f)
+	case "sopen", "sgen", "srep":
+		return r.history(f)
 	}
 	return "bad-op"
 }
@@ -869,4 +905,117 @@ func c25Recv(f []string) string {
 		out += fmt.Sprintf(" ein=%s eout=%s", Hex(tr.EncIn), Hex(tr.EncOut))
 	}
 	return out
+}
+
+// deliver puts one packet on the wire and through the real gateway adapter on the given session.
+func c25Deliver(sess session.Session, pkt *frame.SendPacket) string {
+	wire, err := codec.New().EncodeFrame(pkt, frame.LatestVersion)
+	if err != nil {
+		return "err:client-encode"
+	}
+	frames, consumed, err := gwadapter.New().Decode(sess, wire)
+	if err != nil {
+		return c25Err(err)
+	}
+	if len(frames) != 1 || consumed != len(wire) {
+		return fmt.Sprintf("err:frames=%d consumed=%d/%d", len(frames), consumed, len(wire))
+	}
+	got, ok := frames[0].(*frame.SendPacket)
+	if !ok {
+		return "err:not-a-send"
+	}
+	return fmt.Sprintf("ok seq=%d msgno=%s chid=%s chtype=%d expire=%d topic=%s payload=%s", got.ClientSeq, Hex([]byte(got.ClientMsgNo)), Hex([]byte(got.ChannelID)), got.ChannelType, got.Expire, Hex([]byte(got.Topic)), Hex(got.Payload))
+}
+
+func (r *c25Runner) history(f []string) string {
+	switch f[0] {
+	case "sopen":
+		if len(f) != 3 {
+			return "bad-op"
+		}
+		keys := penc.SessionKeys{AESKey: UnHex(f[1]), AESIV: UnHex(f[2])}
+		sc, err := gwenc.NewSessionCrypto(keys)
+		if err != nil {
+			return "bad-op"
+		}
+		sess := session.New(session.Config{ID: 1, Listener: "verif", RemoteAddr: "r", LocalAddr: "l"})
+		sess.SetValue(gatewaytypes.SessionValueEncryptionEnabled, true)
+		sess.SetValue(gatewaytypes.SessionValueAESKey, keys.AESKey)
+		sess.SetValue(gatewaytypes.SessionValueAESIV, keys.AESIV)
+		sess.SetValue(gatewaytypes.SessionValueCrypto, sc)
+		r.sess, r.keys, r.sealed = sess, keys, nil
+		return "ok"
+	case "sgen":
+		if len(f) != 6 {
+			return "bad-op"
+		}
+		seq, ok1 := c25U(f[1], 32)
+		ct, ok2 := c25U(f[4], 8)
+		if !ok1 || !ok2 {
+			return "bad-op"
+		}
+		if r.sess == nil {
+			return "err:no-session"
+		}
+		pkt := &frame.SendPacket{ClientSeq: seq, ClientMsgNo: string(UnHex(f[2])), ChannelID: string(UnHex(f[3])), ChannelType: uint8(ct)}
+		enc, err := gwenc.EncryptPayload(UnHex(f[5]), r.keys)
+		if err != nil {
+			return "err:client-encrypt"
+		}
+		pkt.Payload = enc
+		mk, err := gwenc.SendMsgKey(pkt, r.keys)
+		if err != nil {
+			return "err:client-msgkey"
+		}
+		pkt.MsgKey = mk
+		cp := *pkt
+		cp.Payload = append([]byte(nil), enc...)
+		r.sealed = &cp
+		return c25Deliver(r.sess, pkt) + fmt.Sprintf(" enc=%s mk=%s", Hex(enc), Hex([]byte(mk)))
+	default: // srep
+		if len(f) != 2 {
+			return "bad-op"
+		}
+		if r.sess == nil {
+			return "err:no-session"
+		}
+		if r.sealed == nil {
+			return "err:no-genuine"
+		}
+		pkt := *r.sealed
+		pkt.Payload = append([]byte(nil), r.sealed.Payload...)
+		if f[1] != "none" {
+			p := strings.Split(f[1], ":")
+			if len(p) != 4 || len(p[0]) != 1 || !strings.Contains("fdit", p[0]) || (p[0] == "t" && p[1] != "payload") {
+				return "bad-op"
+			}
+			idx, e1 := strconv.Atoi(p[2])
+			arg, e2 := strconv.Atoi(p[3])
+			if e1 != nil || e2 != nil || idx < 0 || arg < 0 || arg > 255 {
+				return "bad-op"
+			}
+			k := p[0][0]
+			switch p[1] {
+			case "payload":
+				pkt.Payload = c25TamperBytes(k, pkt.Payload, idx, arg)
+			case "msgno":
+				pkt.ClientMsgNo = string(c25TamperBytes(k, []byte(pkt.ClientMsgNo), idx, arg))
+			case "chid":
+				pkt.ChannelID = string(c25TamperBytes(k, []byte(pkt.ChannelID), idx, arg))
+			case "seq":
+				if k != 'f' {
+					return "bad-op"
+				}
+				pkt.ClientSeq ^= 1 << uint(arg%32)
+			case "chtype":
+				if k != 'f' {
+					return "bad-op"
+				}
+				pkt.ChannelType ^= 1 << uint(arg%8)
+			default:
+				return "bad-op"
+			}
+		}
+		return c25Deliver(r.sess, &pkt)
+	}
 }
